@@ -116,6 +116,8 @@ def build(e):
     if op == 'reg':
         return Regularizer(e[1].copy(), e[2])
     if op == 'nrm':
+        if len(e) > 3 and e[3] and e[1].shape[0] == 1:
+            return Normalizer(e[1].toarray().ravel(), e[2])      # 1-d adjacency: reshaped to one row by __init__
         return Normalizer(e[1].copy(), e[2])
     if op == 'lap':
         return Laplacian(e[1].copy(), e[2], e[3])
@@ -369,7 +371,7 @@ def rand_leaf(rng, kind=None, shape=None, bad=False):
         return ('reg', rand_matrix(rng, r, c), rng.choice(REGS))
     if kind == 'nrm':
         r, c = shape or (rand_dim(rng), rand_dim(rng))
-        return ('nrm', rand_matrix(rng, r, c), rng.choice(REGS))
+        return ('nrm', rand_matrix(rng, r, c), rng.choice(REGS), r == 1 and rng.random() < 0.5)
     if kind == 'lap':
         nz = rng.random() < 0.5
         if bad:
@@ -582,6 +584,11 @@ def cases_for_expr(ctx, rng, e, full=True):
             add_dotmat(('T', e), 'T.dotmat', ym)
     if rng.random() < 0.15:
         add_dot(e, 'dot', rand_vec(rng, c + 1, 'int'), wrong=True)         # wrong length: ValueError on both sides
+    if rng.random() < 0.1:
+        from sknetwork.utils.format import directed2undirected
+        impl = _call(lambda: 'ok' if directed2undirected(build(e), weighted=False) is not None else 'ok')
+        out.append(Case(('d2u_unweighted', et), expr_sig(e, 'd2u_unweighted'), 'c15.d2u_unweighted ' + et, impl, None,
+                        nontriv, dict(desc, query='d2u_unweighted')))
     if kind == 'slr':
         for axis in (0, 1, None):
             if not full and rng.random() < 0.4:
@@ -979,6 +986,15 @@ def build_cases(ctx):
     for leaf in exhaustive_leaf_exprs():
         cases += cases_for_expr(ctx, rng, leaf, full=False)
         ctx.count('expr:exhaustive-leaf')
+    if not quick:
+        for a in small_binary_matrices(3, 3):
+            r, c = a.shape
+            if r <= 2 and c <= 2:
+                continue
+            for leaf in [('slr', a, [(np.ones(r), np.arange(1, c + 1, dtype=float))], False), ('nrm', a, 1), ('con', a, True),
+                         ('reg', a, 2)] + ([('lap', a, 1, False), ('pol', a, [1.0, -1.0, 2.0])] if r == c else []):
+                cases += cases_for_expr(ctx, rng, leaf, full=False)
+                ctx.count('expr:exhaustive-leaf-3x3')
     # (b) random expressions
     n_expr = 600 if quick else 9000
     for i in range(n_expr):
